@@ -20,6 +20,11 @@ def args_to_key(base, args, kwargs, typed, ignore):
     return key
 '''
 
+T_FULL_NAME = '''
+def full_name(func):
+    return func.__module__ + __Hsepstr__ + func.__qualname__
+'''
+
 T_CACHE_MEMOIZE = '''
 def memoize(self, name=None, typed=False, expire=None, tag=None, ignore=()):
     if callable(name):
@@ -184,6 +189,16 @@ Definition args_to_key (base args : list el) (kwargs : kwargs_t) (typed : bool) 
   else key.
 
 ''' % (argcond, kwcond, sep, sorted_flag))
+
+    # --- full_name: the key base derived for a function memoized without name=
+    f = find_func(tree, 'full_name', fname)
+    h = match_template(T_FULL_NAME, f, fname)
+    sepn = h['__Hsepstr__']
+    if not (isinstance(sepn, ast.Constant) and isinstance(sepn.value, str)):
+        err(sepn, 'full_name: separator is not a string constant', fname)
+    out.append('(* full_name(func) = func.__module__ + sep + func.__qualname__ (code points) *)\n')
+    out.append('Definition full_name_sep : list Z := [%s].\n' % '; '.join(str(ord(ch)) for ch in sepn.value))
+    out.append('Definition full_name (module qualname : list Z) : list Z := module ++ full_name_sep ++ qualname.\n\n')
 
     # --- Cache.memoize store condition
     f = find_func(tree, 'Cache.memoize', fname)
